@@ -2,21 +2,6 @@
 Require Import PonyV.Base.PyBase PonyV.Model.C06Str PonyV.Model.C06Lex PonyV.Model.C06Params PonyV.Model.C30Scan PonyV.Model.C30Adapt
                PonyV.Proofs.C06StrLemmas PonyV.Proofs.C30Proofs.
 
-(* cache transparency is false: the entry is stored under the %-doubled text but looked up under the original text.
-   After adapting  a % b  for a format-style provider, adapting  a %% b  returns the result computed for  a % b . *)
-Theorem C30_cache_refuted :
-  let h := [([97; 32; 37; 32; 98], Format); ([97; 32; 37; 37; 32; 98], Format)] in
-  run_history ascii_w ascii_sp [] h <> map (fun rq => adapt ascii_w ascii_sp (snd rq) (fst rq)) h.
-Proof. vm_compute. discriminate. Qed.
-Print Assumptions C30_cache_refuted.
-
-(* the same with an expression:  x % $a  then  x %% $a  (pyformat) *)
-Theorem C30_cache_refuted_with_args :
-  let h := [([120; 32; 37; 32; 36; 97], Pyformat); ([120; 32; 37; 37; 32; 36; 97], Pyformat)] in
-  run_history ascii_w ascii_sp [] h <> map (fun rq => adapt ascii_w ascii_sp (snd rq) (fst rq)) h.
-Proof. vm_compute. discriminate. Qed.
-Print Assumptions C30_cache_refuted_with_args.
-
 (* the % doubling is applied to the whole statement before it is scanned, so it reaches the expressions:
    $(a % 2)  is evaluated as  (a %% 2)  (a SyntaxError),  $d['%']  looks up the key '%%' *)
 Theorem C30_expr_percent_refuted :
